@@ -54,6 +54,10 @@ func volClass(ref *pathRef, s string) string {
 		if strings.Contains(s[2:], ":") {
 			return "drive+colon"
 		}
+		if len(s) >= 5 && isSepW(s[2]) && s[3] == '?' && s[4] == '?' && (len(s) == 5 || isSepW(s[5])) {
+			// Dir/Split/Clean hand the part after the drive to the volume rules again: \??\ is a volume there
+			return "drive+root-local-device"
+		}
 		if len(s) >= 4 && isSepW(s[2]) && isSepW(s[3]) {
 			return "drive+dblsep"
 		}
